@@ -91,6 +91,17 @@ Theorem C15_readonly_always : forall s j,
 Proof. exact readonly_always_lemma. Qed.
 Print Assumptions C15_readonly_always.
 
+(* why a refused or read-only instance must never unlock (the lock file is
+   removed whoever asks): an unlock by an instance that holds nothing admits
+   a second writer while the first still holds the pipestance.  That only
+   holders call Unlock is checked on the real mrp (a refused --inspect must
+   leave the live instance's lock in place). *)
+Theorem C15_foreign_unlock_breaks_exclusion : exists h,
+  forallb (fun e => match e with LUnlock i => negb (N.eqb i 1 || N.eqb i 2) | _ => true end) h = true /\
+  holders (lock_run lock_init h) = [2%N; 1%N].
+Proof. exact foreign_unlock_lemma. Qed.
+Print Assumptions C15_foreign_unlock_breaks_exclusion.
+
 (* outside the statement: the check-then-write window *)
 Theorem C15_lock_toctou : exists h, length (holders (lock_run lock_init h)) = 2.
 Proof. exact lock_toctou_lemma. Qed.
